@@ -15,7 +15,12 @@ RULE = ("strings over a small mixed-width alphabet (ASCII, 2-, 3-, 4-byte charac
 
 JS = V.jsonnet_string
 ALPHA = ["a", "b", "a", "b", ",", "é", "中", "\U0001f600", "́", " ", "A", "z", "ß", "\t", "\n", " ", "\u0085"]
-SEPS = ["a", "b", ",", "aa", "ab", "aba", ",,", "é", "\U0001f600", "éa", "aé", "中中", " ", "́"]
+SEPS = ["a", "b", ",", "aa", "ab", "aba", ",,", "é", "\U0001f600", "éa", "aé", "中中", " ", "́",
+        # patterns that overlap themselves by two or more characters (a border), ASCII and multi-byte
+        "abab", "aabaa", "abcab", "éaéa", "\U0001f600b\U0001f600b", "aaa", "abaab", "中a中a中"]
+# every character Unicode (or a host language) may call white space; std.trim removes exactly the listed seven
+SPACES = [" ", "\t", "\n", "\f", "\r", "\u0085", "\u00a0", "\u000b", "\u001c", "\u001f", "\u1680", "\u2000", "\u2003", "\u200a", "\u200b", "\u2028", "\u2029", "\u202f", "\u205f", "\u3000",
+          "\ufeff", "\u180e", "\u2060"]
 
 
 def text(max_size=14):
@@ -33,13 +38,18 @@ def string_case(draw):
     sep = draw(st.sampled_from(SEPS))
     if draw(st.booleans()):
         # separator-dense subject: built from the separator and its own prefixes / suffixes, so that occurrences touch and overlap
-        frags = [sep, sep, sep[:1], sep[-1:], sep[:-1] or sep, sep[1:] or sep, t[:1] or "x"]
+        frags = [sep, sep, t[:1] or "x"] + [sep[:k] for k in range(1, len(sep))] + [sep[k:] for k in range(1, len(sep))]
         s = "".join(draw(st.lists(st.sampled_from(frags), max_size=8)))[:24]
     i = draw(ints())
     j = draw(ints())
     k = draw(st.integers(1, 4))
     frac = draw(st.sampled_from([0.5, 1.5, -0.5, 2.25]))
     chars = draw(st.text(alphabet=st.sampled_from(ALPHA), max_size=4))
+    if draw(st.integers(0, 3)) == 0:
+        # white space of every kind around (and inside) the subject
+        pad = st.text(alphabet=st.sampled_from(SPACES), max_size=3)
+        s = draw(pad) + s[:6] + draw(pad) + s[6:10] + draw(pad)
+        chars = draw(st.text(alphabet=st.sampled_from(SPACES + ["a"]), max_size=4))
     parts = draw(st.lists(text(4), max_size=5))
     n = draw(st.integers(0, 6))
     return {"s": s, "t": t, "sep": sep, "i": i, "j": j, "k": k, "frac": frac, "chars": chars, "parts": parts, "n": n}
